@@ -1878,6 +1878,49 @@ class Mp3Tie(KindTie):
                 ctx.hist["infob:MP3:iter_sync:" + which] += 1
                 if a != want:
                     ctx.disagree("MP3 iter_sync (%s)" % which, dict(data=data.hex(), pos=pos, max=mx), model=a, impl=want)
+        return len(cases) + self.offset_cases(ctx, scale)
+
+    def offset_cases(self, ctx, scale):
+        """MPEGInfo(fileobj, offset): the model's `parseFrom` against the real class at offsets inside, at the end of and
+        behind the file; and the theorem instance `…_at`: a stream behind any prefix, read from the prefix's length,
+        gives what the stream alone gives, the frame offset moved by the prefix's length"""
+        from mutagen.mp3 import MPEGInfo
+        rng = ctx.rng
+        files = [d for _, d in self.own_files(rng, 1) if len(d) < 20000]
+        rng.shuffle(files)
+        files = files[:40 * scale]
+        cases = []
+        for data in files:
+            offs = {0, len(data), len(data) + 5, rng.randrange(len(data) + 1), rng.randrange(len(data) + 1)}
+            if data[:3] == b"ID3" and len(data) >= 10:
+                size = 0
+                for b in data[6:10]:
+                    size = size * 128 + (b & 0x7F)
+                offs |= {10 + size, 10 + size - 1, 10}
+            for o in sorted(offs):
+                cases.append((data, o, None))
+            pre = bytes(rng.choice([0xFF, 0xFB, 0x90, 0x49, 0x44, 0x33, 0, rng.getrandbits(8)]) for _ in range(rng.choice([1, 3, 10, 11, 200, 5000])))
+            cases.append((pre + data, len(pre), len(pre)))
+        ans = ctx.driver.ask(["infob kind=MP3 data=%s offset=%d" % (hx(d), o) for d, o, _ in cases])
+        for (data, o, shift), a in zip(cases, ans):
+            def real(d=data, o=o):
+                return self.attrs_of(MPEGInfo(io.BytesIO(d), o))
+            k, r = timed(real, 20)
+            rstat, rvals = ("hang", {}) if k == "hang" else (classify(r), {}) if k == "exc" else ("ok", r)
+            desc = dict(kind="MP3", origin="offset", offset=o, data=hx(data) if len(data) < 700 else "len=%d" % len(data))
+            ctx.hist["infob:MP3:offset:%s" % rstat] += 1
+            compare(ctx, self, "parse at offset", desc, a, rstat, rvals)
+            if shift is not None:
+                # the stream alone
+                k2, r2 = timed(lambda d=data[shift:]: self.attrs_of(MPEGInfo(io.BytesIO(d))), 20)
+                ctx.traces_validated += 1
+                if k2 == "ok" and rstat == "ok":
+                    want = dict(r2, frame_offset=r2["frame_offset"] + shift)
+                    if want != rvals:
+                        ctx.disagree("MP3: behind a prefix, from its length: differs from the stream alone", desc, model=repr(want)[:300], impl=repr(rvals)[:300])
+                    ctx.hist["infob:MP3:offset:prefix-equal"] += 1
+                elif (k2 == "ok") != (rstat == "ok"):
+                    ctx.disagree("MP3: behind a prefix, from its length: status differs from the stream alone", desc, model=str(k2), impl=rstat)
         return len(cases)
 
 
@@ -1941,6 +1984,56 @@ class Mp3CbrTie(Mp3SpecTie):
             d["_py"] = py + tr
             out.append(d)
         return out
+
+
+@register
+class Mp3ShortTie(Mp3SpecTie):
+    """one to three frames and then no header, no false sync anywhere: the sketchy fallback (two or three frames: the
+    first frame's values, sketchy) and the refusal of a single frame; the driver decides `OK`"""
+    name = "MP3short"
+
+    def stream(self, rng, k):
+        lead, py = self.lead(rng)
+        d = dict(kind="MP3short", **lead)
+        for key in ("f1", "f2", "f3")[:k]:
+            h = self.rand_hdr(rng)
+            body = bytes(rng.randrange(0, 0x40) for _ in range(self.flen(h) - 4))
+            if rng.randrange(12) == 0:
+                body = body[:-1] + b"\xff"                      # not OK: a sync across the frame boundary (or at the end)
+            d[key + "h"] = self.hdr_str(*h); d[key + "b"] = body
+            py += self.hdr_bytes(h) + body
+        tr = rng.choice([b"", b"", bytes(rng.randrange(0, 0xE0) for _ in range(rng.choice([1, 2, 3, 5, 400]))), b"\xff", b"\xff\x00\xff", b"TAG" + bytes(125)])
+        d["trailing"] = tr
+        d["_py"] = py + tr
+        return d
+
+    def lattice(self, rng, scale):
+        return [self.stream(rng, rng.choice([2, 3])) for _ in range(80 * scale)]
+
+    def extra(self, ctx, scale):
+        """a single frame: `expected` is the refusal"""
+        rng = ctx.rng
+        cases = [self.stream(rng, 1) for _ in range(30 * scale)]
+        lines = []
+        for d in cases:
+            fields = {k: v for k, v in d.items() if k not in ("kind", "_py")}
+            a = args(fields)
+            lines.append("infob op=build kind=MP3short " + a)
+            lines.append("infob op=expect kind=MP3short " + a)
+        ans = ctx.driver.ask(lines)
+        for i, d in enumerate(cases):
+            b, e = ans[2 * i], ans[2 * i + 1]
+            built = bytes.fromhex(b.split("v=", 1)[1].replace("-", "")) if b.startswith("ok v=") else None
+            desc = dict(kind="MP3short", origin="one-frame", data=hx(d["_py"]) if len(d["_py"]) < 700 else "len=%d" % len(d["_py"]))
+            ctx.traces_validated += 1
+            if built != d["_py"]:
+                ctx.disagree("MP3short: Lean build differs from the Python builder", desc, model=str(b)[:200], impl=d["_py"][:100].hex())
+                continue
+            rstat, rvals = real_answer(self, built)
+            ctx.hist["infob:MP3short:one-frame:%s:%s" % (e.replace(" ", "_")[:24], rstat)] += 1
+            if e.startswith("err mutagen") and e.endswith("ok=1") and rstat != "err:mutagen":
+                ctx.disagree("MP3short: a single frame is not refused", desc, model=e, impl="%s %r" % (rstat, rvals))
+        return len(cases)
 
 
 @register
